@@ -91,6 +91,11 @@ func (c *lruSessionCache) Put(sessionKey string, cs *SessionState) {
 		return
 	}
 
+	if cs == nil {
+		// 删除不存在的 sessionKey：无需任何操作
+		return
+	}
+
 	if c.q.Len() < c.capacity {
 		entry := &lruSessionCacheEntry{sessionKey, cs}
 		c.m[sessionKey] = c.q.PushFront(entry)
